@@ -368,6 +368,7 @@ func propertyOfMismatch(prop string) string {
 
 func TestHarness(t *testing.T) {
 	o := hx.ParseFlags()
+	currentProp = o.Prop
 	if err := fairStart(); err != nil {
 		t.Fatalf("cannot start model driver: %v", err)
 	}
